@@ -9,7 +9,7 @@ from typing import Any
 from . import core
 from .model import Model
 from .runner import fp
-from .world import World, sort_key
+from .world import World, norm_rows, sort_key
 
 PG_ERR = "ProgrammingError"
 
@@ -240,7 +240,7 @@ def predict(model: Model, op: dict[str, Any]) -> dict[str, Any]:
 
 def run_serial_case(case: dict[str, Any], oracle: Oracle, *, snapshot_every: bool = True, sessions_every: bool = True,
                     focus: Any = None, min_focus: int = 1, fail_profile: bool = False, check_vars: bool = False,
-                    tolerate: tuple[str, ...] = ()) -> dict[str, Any]:
+                    tolerate: tuple[str, ...] = (), ext_stable: Any = None) -> dict[str, Any]:
     """Execute case['ops'] in list order; after every op run the oracles. Returns the result record."""
     sim = core.begin()
     cfg = case.get("config", {})
@@ -261,7 +261,14 @@ def run_serial_case(case: dict[str, Any], oracle: Oracle, *, snapshot_every: boo
             pred = predict(model, op)  # independent of the world: the model only sees the op
             is_ddl = op["k"] == "exec" and str(op.get("sql", "")).lstrip().upper().startswith(("CREATE", "ALTER", "COMMENT", "DROP"))
             meta_before = world_meta(world) if fail_profile and not pred["ok"] and is_ddl else None
+            ext_before = world_ext(world) if ext_stable is not None and ext_stable(op) else None
             out = world.apply(op)
+            if ext_before is not None:
+                ext_after = world_ext(world)
+                lost = {k: v for k, v in ext_before.items() if k in ext_after and ext_after[k] != v}
+                if lost:
+                    oracle.current_op = op
+                    oracle.flag("existing-data", f"existing-data/side-tables/{op['k']}", {"op": op_brief(op), "before": {k: ext_before[k] for k in list(lost)[:2]}, "after": {k: ext_after[k] for k in list(lost)[:2]}})
             sim.note(inv, op["s"], op["k"], (op.get("st") or {}).get("t"), out.get("ok"), out.get("errno"), fp(out.get("rows")) if out.get("rows") is not None else None)
             oracle.current_op = op
             oracle.current_pred_ok = bool(pred["ok"])
@@ -387,6 +394,24 @@ def after_known(ops: list[dict[str, Any]], world: World, sim: core.Sim, prop: st
                 return {"ops": n, "violation": {"property": prop, "signature": "after-known/landing/insert", "clause": "a not fully qualified name denotes the object built from the session's own context",
                                                 "detail": {**brief, "expected_table": want, "tables_changed": changed}}}
     return {"ops": n, "violation": None}
+
+
+def world_ext(world: World) -> dict[str, Any]:
+    """The rows of fakesnow's per-database side tables (comments, declared VARCHAR lengths) read through the raw engine -
+    the part of 'existing data' that the engine catalog does not show."""
+    out: dict[str, Any] = {}
+    with world.sim.quiet():
+        cur = world.raw_root().cursor()
+        try:
+            for (d,) in cur.execute("select database_name from duckdb_databases() where not internal").fetchall():
+                for t in ("_fs_tables_ext", "_fs_columns_ext"):
+                    try:
+                        out[f"{d}.{t}"] = sorted(norm_rows(cur.execute(f'select * from "{d}".information_schema.{t}').fetchall()), key=sort_key)
+                    except BaseException:  # noqa: BLE001, S110
+                        pass  # a database without the side tables (internal ones)
+        finally:
+            cur.close()
+    return out
 
 
 def world_meta(world: World) -> dict[str, Any]:
